@@ -1474,6 +1474,12 @@ def bias_rules(run, rule, ast):
     for f in by_name(ast, "install_gv"):
         asg = [n for n in astq.walk(f["body"]) if n.get("k") == "BinaryOperator" and n.get("op") == "=" and astq.strip(n["c"][0]).get("k") == "UnaryOperator" and
                astq.strip(n["c"][0]).get("op") == "*" and any(x.get("k") == "MemberExpr" and x.get("member") == "static_vptr" for x in astq.walk(n["c"][0]))]
+        # a store that copies the pointer already installed for the class (`*record.static_vptr = *cls->static_vptr`: the other
+        # registration records of a class receive the same pointer) is a propagation, not an installation
+        def is_copy(n):
+            r = astq.strip(n["c"][1])
+            return r is not None and r.get("k") == "UnaryOperator" and r.get("op") == "*" and any(x.get("k") == "MemberExpr" and x.get("member") == "static_vptr" for x in astq.walk(r))
+        asg = [n for n in asg if not is_copy(n)]
         forms = [astq.affine(n["c"][1], {}, _sym_bias) for n in asg]
         main = [a for a in forms if a is not None and "first_slot" in a]
         def cursor_minus_bias(a):
@@ -3223,3 +3229,35 @@ using detail::types;
     for ob, ok, msg in e3.run_unit(run, rule, u):
         if not ok:
             run.violation(rule, ob["key"], "%s: %s" % (ob["desc"], msg), "include/yorel/yomm2/detail.hpp")
+
+
+def record_vptr_rules(run, rule, ast):
+    """a class can have several registration records (several ids: one per shared library, or several C++ classes that the policy's
+    type_index projects onto one class), each naming a static v-table pointer variable of its own. The static routes (final,
+    make_virtual_shared, the constructor for an object of exactly the static type) read the variable of THEIR record: update
+    must install the v-table pointer in every record's variable - either install_gv stores through `record.static_vptr` in a loop
+    over the policy's registration records, or the merged class keeps the variables of all its records."""
+    for f in by_name(ast, "install_gv"):
+        loops = [lp for lp in astq.walk(f["body"]) if lp.get("k") == "CXXForRangeStmt" and any(
+            (astq.refname(x) or "").endswith("::classes") and x.get("k") == "DeclRefExpr" and x["ref"].get("storage") == "global" for x in astq.walk(lp["range"]))]
+        per_record = []
+        for lp in loops:
+            lv = lp["var"]["did"]
+            for n in astq.walk(lp["body"]):
+                if n.get("k") == "BinaryOperator" and n.get("op") == "=":
+                    l = astq.strip(n["c"][0])
+                    if l is not None and l.get("k") == "UnaryOperator" and l.get("op") == "*" and any(x.get("k") == "MemberExpr" and x.get("member") == "static_vptr" and _refs(x, lv) for x in astq.walk(l)):
+                        conds = [c for c in (_cdep_conds(f, n) or []) if c[0] not in ("loop", "trace")]
+                        per_record.append((n, conds))
+        ok = any(not conds for _, conds in per_record)
+        if not ok:
+            # alternative: the merged class collects every record's variable
+            for g in by_name(ast, "augment_classes"):
+                pushes = [n for n in astq.walk(g["body"]) if n.get("k") == "CXXMemberCallExpr" and (n.get("callee") or "").endswith("::push_back") and any(
+                    x.get("k") == "MemberExpr" and x.get("member") == "static_vptr" for x in astq.walk(n["c"][1])) ] if g.get("body") else []
+                if any(not [c for c in (_cdep_conds(g, n) or []) if c[0] not in ("loop", "trace")] for n in pushes):
+                    ok = True
+        run.instance(rule, "%s: the static v-table pointer of every registration record of a class is installed (not only the first record's)" % short(f), (f["file"], f["line"]), ok=ok)
+        if not ok:
+            run.violation(rule, "compiler::install_gv|record-vptrs", "install_gv stores a class's v-table pointer through the static_vptr of the FIRST registration record only (the one augment_classes kept): a class known through several records "
+                          "- several ids projected onto one class - leaves the other records' static v-table pointers null; final / make_virtual_shared / the exact-type constructor route of those records then hand out a null v-table pointer", (f["file"], f["line"]))
